@@ -12,6 +12,7 @@ res = Result(pid + "_tonly", tier, int(os.environ.get("VERIF_SEED", "1")))
 props.CHECKS[pid](res)
 for v in res.violations:
     pass
+print("translator validation:", (res.cov.get("tv") or {}).get("translator_validation"), "builtins:", bool(res.cov.get("builtins")), "M:", (res.cov.get("mir") or {}).get("translator_validation"))
 print("violations:", len(res.violations), "known:", len(res.known), "inconclusive:", len(res.inconclusive))
 for i in res.inconclusive[:5]:
     print("  INC", i[:300])
